@@ -467,6 +467,7 @@ func wrap(value string) string {
 }
 
 func (g *gen) field(thisField, thatField string, fieldType types.Type) (string, error) {
+	fieldType = types.Unalias(fieldType)
 	if named, isNamed := fieldType.(*types.Named); isNamed {
 		inputType := compareMethodInputParam(named)
 		if inputType != nil {
@@ -491,7 +492,7 @@ func (g *gen) field(thisField, thatField string, fieldType types.Type) (string, 
 		}
 		return fmt.Sprintf("%s(%s, %s)", g.GetFuncName(fieldType, fieldType), thisField, thatField), nil
 	case *types.Pointer:
-		ref := typ.Elem()
+		ref := types.Unalias(typ.Elem())
 		if named, ok := ref.(*types.Named); ok {
 			inputType := compareMethodInputParam(named)
 			if inputType != nil {
